@@ -1650,7 +1650,7 @@ def _make_block_comment(text: str, prefix: str, comment: str, suffix: str, inden
     if len(suffix) > 0 and len(commented_doc_lines) > 0:
         commented_doc_lines.append(f"{' ' * indent}{suffix}")
 
-    return "\n".join(commented_doc_lines)
+    return "\n".join(_no_line_continuation(x) for x in commented_doc_lines)
 
 
 @template_language_filter(__name__)
@@ -1875,3 +1875,11 @@ def filter_block_comment(language: Language, text: str, style: str, indent: int 
 from nunavut._templates import template_volatile_filter as _template_volatile_filter  # noqa: E402 pylint: disable=C0413
 
 _template_volatile_filter(filter_to_template_unique_name)
+
+
+def _no_line_continuation(comment_line: str) -> str:
+    """
+    A line of a generated comment must not end in a line continuation (a backslash or, before C++17, the ``??/``
+    trigraph): it would splice the next source line into the comment.
+    """
+    return comment_line + "." if comment_line.endswith(("\\", "??/")) else comment_line
